@@ -310,7 +310,9 @@ Definition handle (fx : fixes) (e : env) (au : auth) (c : call) : list write * e
     (match lookup e h, lookup e a with
      | Some (i, hi), Some (j, ai) =>
        if hi_height ai >? hi_height hi then [errw ErrAncestorHashHigher]
-       else if hi_height ai =? hi_height hi then [okw DVal]
+       else if hi_height ai =? hi_height hi then
+         (* after fix ed2f6a2: two different headers of equal height are not on the same chain *)
+         (if Nat.eqb i j then [okw DVal] else [errw ErrHeadersNotPartOfTheSameChain])
        else match e_anc e i (hi_height ai) with
             | None => [errw ErrHeadersNotPartOfTheSameChain]
             | Some k => if negb (Nat.eqb k j) then [errw ErrHeadersNotPartOfTheSameChain]
